@@ -12,7 +12,8 @@ TECHNIQUE = "Hypothesis-generated tiny runcards solved end to end; oracle = exac
 RULE = (
     "Generated tiny runcards (QCD order 1-4, QED order 0-2, all methods, polarised / time-like, sv none/exponentiated/"
     "expanded, upward / downward / fixed paths with initial and final nf in 3-5, jittered log grids of 2-4 points) with a "
-    "target that requires a computed segment. For every quark h > max(nf along the path) and its antiquark: "
+    "target that requires a computed segment; a quarter of the cases are preceded in the same process by a cheap computation "
+    "with the same scales but another starting flavour number (no state may survive between computations). For every quark h > max(nf along the path) and its antiquark: "
     "op[h,j,h,j] == 1 exactly and every other entry of the rows and columns of h and hbar == 0 exactly, at every grid "
     "point. Non-trivial = a computed (non-identity) operator plus at least one matching on the path or QED or order>=2; "
     "distinct by (order, method, flags, nf0, nff, sv, npts, deg). Refused configurations are discarded and counted."
@@ -58,7 +59,27 @@ def strategy(tier):
             case["order"] = [3, 0]
         return case
 
-    return st.one_of(qcd, qcd, qcd, qcd, qed).map(fix)
+    def with_prior(t):
+        # a quarter of the cases are preceded, in the same process, by a cheap computation that differs in the
+        # starting flavour number only (same matching scales, same mu0): no state may survive between computations
+        case, i, nf = t
+        if i == 0 and nf != case["init"][1]:
+            case["prior_nf0"] = nf
+        return case
+
+    cases = st.one_of(qcd, qcd, qcd, qcd, qed).map(fix)
+    return st.tuples(cases, st.integers(0, 3), st.sampled_from((3, 4, 5))).map(with_prior)
+
+
+def solve_prior(case):
+    """Run a cheap sibling computation first (its outcome is irrelevant)."""
+    sib = {k: v for k, v in case.items() if k != "prior_nf0"}
+    sib.update(init=[case["init"][0], case["prior_nf0"]], order=[1, 0], method="iterate-exact", iters=1, xgrid=[0.1, 1.0],
+               deg=1, mugrid=[list(case["mugrid"][0])], sv=None, xif=1.0, pol=False, tl=False, inv="expanded", max_order=[1, 0])
+    try:
+        ru.solve(sib)
+    except Exception:  # noqa: BLE001 - only the computation that follows is judged
+        pass
 
 
 def check_case(case):
@@ -68,6 +89,10 @@ def check_case(case):
     nf0 = c["init"][1]
     res.classes = [f"order={c['order'][0]},{c['order'][1]}", f"method={c['method']}", f"sv={c['sv']}",
                    f"pol={c['pol']}", f"tl={c['tl']}"]
+    if "prior_nf0" in case:
+        res.classes.append("after-sibling-computation")
+        solve_prior(case)
+        case = {k: v for k, v in case.items() if k != "prior_nf0"}
     try:
         ops = ru.solve(case)
     except (NotImplementedError, ValueError) as e:
@@ -97,7 +122,7 @@ def check_case(case):
                     exp_col[i, j, j] = 1.0
                 if not np.array_equal(row, exp_row):
                     d = np.abs(row - exp_row)
-                    idx = np.unravel_index(np.nanargmax(d), d.shape)
+                    idx = np.unravel_index(np.argmax(np.where(np.isnan(d), np.inf, d)), d.shape)
                     kind = "diag" if (idx[1] == i) else "receives"
                     res.fail(
                         f"{ID}/row/{kind}/qed={qed}",
@@ -106,7 +131,7 @@ def check_case(case):
                     )
                 if not np.array_equal(col, exp_col):
                     d = np.abs(col - exp_col)
-                    idx = np.unravel_index(np.nanargmax(d), d.shape)
+                    idx = np.unravel_index(np.argmax(np.where(np.isnan(d), np.inf, d)), d.shape)
                     res.fail(
                         f"{ID}/col/feeds/qed={qed}",
                         f"target {(mu2, nff)} nf0={nf0}: inactive pid {pid} column entry [a={idx[0]}, j={idx[1]}, k={idx[2]}] = "
